@@ -3096,6 +3096,9 @@ def groupby_scan(
     (by_,) = bys
     has_dask = is_duck_dask_array(array) or is_duck_dask_array(by_)
 
+    if by_.ndim != 1 or axis_ != (array.ndim - 1,):
+        raise NotImplementedError("Scans are only supported along the last axis, with 1D `by`.")
+
     if array.dtype.kind in "Mm":
         cast_to = array.dtype
         array = array.view(np.int64)
